@@ -449,7 +449,7 @@ func ruleEnumLabelUniq(c *Ctx, r *Report) {
 //   - the key message of a list is a sibling of the messages of the list's package, so its name
 //     is made unique against the names of the directories of that package.
 func ruleProtoScopeNames(c *Ctx, r *Report) {
-	r.Rule("R-PROTO-SCOPE", "names protogen derives with a fixed transformation are kept unique in the protobuf scope they land in: the value prefix of each enum embedded in a message is a MakeNameUnique result over the message's enums, set before the (single) render and read by the message template; the name of a list's key message is a MakeNameUnique result over the names of the IR directories of its package; the fields of a oneof are renamed by MakeNameUnique over the message's field names before they are attached; the message for a leaf-list of unions is named through a uniquifier", 7)
+	r.Rule("R-PROTO-SCOPE", "names protogen derives with a fixed transformation are kept unique in the protobuf scope they land in: the value prefix of each enum embedded in a message is a MakeNameUnique result over the message's enums, set before the (single) render and read by the message template; the name of a list's key message is a MakeNameUnique result over the names of the IR directories of its package; the fields of a oneof are renamed by MakeNameUnique over the message's field names before they are attached; the message for a leaf-list of unions is named through a uniquifier; every field of a key message is named through the used-name set; enum value numbers are tested against the int32 range", 9)
 	// (1) every store to protoMsgEnum.ValuePrefix is a uniquifier result with memory across the loop.
 	var setter *FuncInfo
 	n := 0
@@ -672,6 +672,74 @@ func ruleProtoScopeNames(c *Ctx, r *Report) {
 		}
 		r.Check(good, "protogen.unionFieldToOneOf:repeated-union-message-name", c.Pos(f.Decl.Pos()), "name made unique",
 			"the message generated for a leaf-list of unions is named <Leaf>Union (and a union's inline enumeration <Leaf>Enum) without a test against the other type names of the scope it is emitted in")
+	}
+	// (8) every field of the key message (the keys, and the field for the list entry) is named
+	// through the message's set of used field names.
+	if f := c.MustFunc(r, "protogen", "genListKeyProto"); f != nil {
+		info := f.Info()
+		k := 0
+		ast.Inspect(f.Decl.Body, func(x ast.Node) bool {
+			cl, ok := x.(*ast.CompositeLit)
+			if !ok {
+				return true
+			}
+			tv, ok := info.Types[cl]
+			if !ok || tv.Type == nil || !strings.HasSuffix(tv.Type.String(), "protogen.protoMsgField") {
+				return true
+			}
+			for _, el := range cl.Elts {
+				kv, ok := el.(*ast.KeyValueExpr)
+				if !ok {
+					continue
+				}
+				if id, ok := kv.Key.(*ast.Ident); !ok || id.Name != "Name" {
+					continue
+				}
+				k++
+				exprs := []ast.Expr{kv.Value}
+				if id, ok := ast.Unparen(kv.Value).(*ast.Ident); ok {
+					exprs = allDefs(f, info.ObjectOf(id))
+				}
+				good := len(exprs) > 0
+				for _, e := range exprs {
+					call, ok := ast.Unparen(e).(*ast.CallExpr)
+					if !ok || FullName(Callee(info, call)) != P("genutil")+".MakeNameUnique" {
+						good = false
+					}
+				}
+				r.Check(good, fmt.Sprintf("protogen.genListKeyProto:field-name#%d", k), c.Pos(kv.Value.Pos()), "field name drawn from the message's used-name set",
+					"genListKeyProto names a field of the key message "+types.ExprString(kv.Value)+" without making it unique among the message's fields: list foo with keys foo and foo_key yields two fields foo_key; list k_string with a union key k yields the oneof member k_string next to the list-entry field k_string")
+			}
+			return true
+		})
+	}
+	// (9) an enum value number (YANG value + 1) is tested against the int32 range before it is stored.
+	if f := c.MustFunc(r, "protogen", "genProtoEnum"); f != nil {
+		info := f.Info()
+		k := 0
+		ast.Inspect(f.Decl.Body, func(x ast.Node) bool {
+			as, ok := x.(*ast.AssignStmt)
+			if !ok || len(as.Lhs) != 1 {
+				return true
+			}
+			ix, ok := ast.Unparen(as.Lhs[0]).(*ast.IndexExpr)
+			if !ok {
+				return true
+			}
+			if tv, ok := info.Types[ix.Index]; !ok || tv.Value != nil {
+				return true // constant index (the zero value)
+			}
+			k++
+			bounded := false
+			for _, ft := range c.FactsAt(f, as, false) {
+				if ft.Kind == "cond" && strings.Contains(types.ExprString(ft.Cond), "MaxInt32") {
+					bounded = true
+				}
+			}
+			r.Check(bounded, fmt.Sprintf("protogen.genProtoEnum:value-number#%d", k), c.Pos(as.Pos()), "number tested against the int32 range",
+				"genProtoEnum stores the enum value number "+types.ExprString(ix.Index)+" without testing it against the int32 range: the legal YANG value 2147483647 is written as 2147483648, which protoc rejects")
+			return true
+		})
 	}
 	// (4) key message name.
 	if f := c.MustFunc(r, "protogen", "genListKeyProto"); f != nil {
